@@ -676,15 +676,6 @@ func (g *CallGraph) Reach(from ...*ssa.Function) map[*ssa.Function]bool {
 	return seen
 }
 
-func sortedFuncs(m map[*ssa.Function]bool) []*ssa.Function {
-	var out []*ssa.Function
-	for f := range m {
-		out = append(out, f)
-	}
-	sort.Slice(out, func(i, j int) bool { return out[i].String() < out[j].String() })
-	return out
-}
-
 func (s *Summary) sortedEffects() []Effect {
 	var out []Effect
 	for _, e := range s.Effects {
